@@ -186,7 +186,11 @@ class FragmentsOnCompositeTypesChecker(ValidationVisitor):
 
     def enter_inline_fragment(self, node):
         if node.type_condition:
-            type_ = self.schema.get_type_from_literal(node.type_condition)
+            try:
+                type_ = self.schema.get_type_from_literal(node.type_condition)
+            except UnknownType as err:
+                self.add_error('Unknown type "%s"' % err, [node.type_condition])
+                raise SkipNode()
             if not isinstance(type_, GraphQLCompositeType):
                 self.add_error(
                     'Fragment cannot condition on non composite type "%s".'
@@ -196,7 +200,11 @@ class FragmentsOnCompositeTypesChecker(ValidationVisitor):
                 raise SkipNode()
 
     def enter_fragment_definition(self, node):
-        type_ = self.schema.get_type_from_literal(node.type_condition)
+        try:
+            type_ = self.schema.get_type_from_literal(node.type_condition)
+        except UnknownType as err:
+            self.add_error('Unknown type "%s"' % err, [node.type_condition])
+            raise SkipNode()
         if not isinstance(type_, GraphQLCompositeType):
             self.add_error(
                 'Fragment "%s" cannot condition on non composite type "%s".'
@@ -403,15 +411,17 @@ class PossibleFragmentSpreadsChecker(ValidationVisitor):
         self._fragment_types = dict()  # type: Dict[str, GraphQLType]
 
     def enter_document(self, node):
-        self._fragment_types.update(
-            {
-                definition.name.value: self.schema.get_type_from_literal(
-                    definition.type_condition
-                )
-                for definition in node.definitions
-                if type(definition) == _ast.FragmentDefinition
-            }
-        )
+        for definition in node.definitions:
+            if type(definition) == _ast.FragmentDefinition:
+                try:
+                    self._fragment_types[
+                        definition.name.value
+                    ] = self.schema.get_type_from_literal(
+                        definition.type_condition
+                    )
+                except UnknownType:
+                    # Reported by FragmentsOnCompositeTypesChecker
+                    pass
 
     def enter_fragment_spread(self, node):
         name = node.name.value
